@@ -59,6 +59,7 @@ package swarmutil
 //@   wakes done(ctx)
 //@   ensures inv(q)
 //@   ensures [rendezvous] ret == nil ==> sent()
+//@   ensures [committed] sent() ==> ret == nil
 //@
 //@ func (*AskHub).checkClosed
 //@   requires inv(q)
@@ -102,6 +103,7 @@ package swarmutil
 //@   wakes done(ctx)
 //@   ensures inv(q)
 //@   ensures [rendezvous] ret1 == nil ==> sent()
+//@   ensures [committed] sent() ==> ret1 == nil
 //@   ensures [noanswer] ret1 != nil ==> ret0 == 0
 
 // ---- bounded queue (memswarm / vswarm receive side) ----------------------------------------------
